@@ -41,7 +41,7 @@ def _inside(node, loop):
 
 
 @rule('SA-LINKS.every')
-@props('C17', 'C10', 'C07')
+@props('C17', 'C10', 'C07', 'C03')
 def links_every(ctx):
     obs = []
     nloops = 0
@@ -63,6 +63,30 @@ def links_every(ctx):
                     if isinstance(n, ast.Call) and isinstance(n.func, ast.Attribute) and isinstance(n.func.value, ast.Name) and \
                             n.func.value.id == var and n.func.attr.startswith('set_'):
                         setters.append(n)
+            # a setter applied, inside the loop, to one fixed record instead of the record of the iteration
+            fixed = []
+            assigned_in_loop = set()
+            for st in loop.body:
+                for n in ast.walk(st):
+                    if isinstance(n, (ast.Assign, ast.AugAssign)):
+                        for t in (n.targets if isinstance(n, ast.Assign) else [n.target]):
+                            for y in ast.walk(t):
+                                if isinstance(y, ast.Name):
+                                    assigned_in_loop.add(y.id)
+            for st in loop.body:
+                for n in ast.walk(st):
+                    if isinstance(n, ast.Call) and isinstance(n.func, ast.Attribute) and isinstance(n.func.value, ast.Name) and \
+                            n.func.attr.startswith('set_') and n.func.value.id not in (var, 'self') and n.func.value.id not in assigned_in_loop:
+                        from ..model import type_classes
+                        cl = set(type_classes(ctx.t.expr_type(n.func.value, fi)))
+                        if cl & {'dr.DirectoryRecord', 'udf.UDFFileEntry', 'eltorito.EltoritoEntry'}:
+                            fixed.append(n)
+            if fixed and not any(s.func.attr == fixed[0].func.attr for s in setters):
+                nloops += 1
+                obs.append(Ob('SA-LINKS.every', '%s|for %s in %s|%s on a fixed record' % (fi.qual, var, norm(it), fixed[0].func.attr), False, ctx.loc(fi, fixed[0]),
+                              'inside the loop over %s, `%s(...)` is applied to `%s`, which is the same record in every iteration, and not to `%s`, the record of the iteration: '
+                              'the other names of the content keep the old value while the loop writes them out' % (norm(it), norm(fixed[0].func), fixed[0].func.value.id, var)))
+                continue
             if not setters:
                 continue
             nloops += 1
